@@ -105,6 +105,62 @@ def rule_r3(chk, db, v, roles):
                 chk.verdict(lits == [[want[f]]], "R3", "field." + f, ex.loc(bi), "PostSignatureInfo.%s is read from form field %s (expected %r)" % (f, lits, want[f]), nontrivial=False)
 
 
+TRIM = ("core::str::<impl str>::trim", "core::slice::<impl [u8]>::trim_ascii")
+
+
+def rule_r4(chk, db):
+    """the file part reaches the backend whole or not at all: stream errors abort; pre-emption only after successful aggregation"""
+    from . import streamerr
+    from .c07 import find_prepare
+    n = 0
+    for name, what in (("s3s::stream::aggregate_unlimited", "buffering of the file part"), ("s3s::http::multipart::transform_multipart", "reading the form")):
+        b = db.body(name)
+        if b is None:
+            chk.anchor_missing("R4", "%s not found" % name)
+            continue
+        n += streamerr.check(chk, "R4", db, b, what)
+    chk.floor("R4", n, 2, "source-stream reads on the POST path")
+    prep = find_prepare(db)
+    ag = [(bi, t) for bi, t in prep.calls() if short(callee_def(t)) == "aggregate_unlimited"]
+    chk.floor("R4.agg", len(ag), 1, "aggregate_unlimited call in prepare")
+    from .c01 import op_of_operand
+    pre = [bi for bi, si, st in prep.stmts() if st["rv"]["k"] == "agg" and st["rv"].get("agg") == "tuple" and len(st["rv"]["ops"]) == 2 and
+           (op_of_operand(prep, st["rv"]["ops"][0]) or "").endswith("::PutObject")]
+    for bi, t in ag:
+        o = flow.outcomes_of_call(prep, bi)
+        cont = o.get("Continue") | o.get("Ok")
+        chk.verdict(bool(cont) and bool(pre) and flow.must_pass(prep, pre, cont), "R4", "upload-only-if-file-complete", prep.loc(bi),
+                    "the POST upload proceeds to PutObject on a path where buffering the file part did not succeed")
+        # the bytes stored are the aggregated bytes
+        vs = [(b2, st) for b2, si, st in prep.stmts() if flow.proj_names(flow.norm_proj(st["dst"]["proj"]))[-1:] == ["vec_stream"]]
+        okv = False
+        for b2, st in vs:
+            sl = flow.backward(prep, st["rv"]["ops"][0], at=b2)
+            okv = any(cb == bi for cb, _, _ in sl.calls)
+        chk.verdict(okv, "R4", "stored-bytes-are-file-part", prep.loc(bi), "s3ext.vec_stream is not built from the aggregated file part", nontrivial=False)
+
+
+def rule_r5(chk, db):
+    """form values verbatim: no trimming adapter in the form parser (a value may legitimately end in CR LF or spaces)"""
+    hits = []
+    for b in db.grep("s3s::http::multipart"):
+        if b.crate != "s3s" or not db.root_of(b).name.startswith("s3s::http::multipart"):
+            continue
+        for bi, t in b.calls():
+            d = callee_def(t)
+            if any(d.startswith(p) for p in TRIM):
+                hits.append((b, bi, d))
+    for b, bi, d in hits:
+        chk.fail("R5", "trim@" + db.root_of(b).name.replace("s3s::http::multipart::", ""), b.loc(bi),
+                 "the form parser passes text through %s: field values that end in whitespace / CR LF are silently shortened" % short(d))
+    # positive control: the matcher recognises a trim call where one is known to exist
+    ctl = db.body("s3s::sig_v4::methods::create_canonical_request")
+    seen = ctl is not None and any(any(callee_def(t).startswith(p) for p in TRIM) for _, t in ctl.calls())
+    chk.verdict(seen, "R5", "positive-control", ctl.loc() if ctl else "", "trim matcher finds no trim call in create_canonical_request (control)", nontrivial=False)
+    if not hits:
+        chk.ok("R5", "no-trim-in-form-parser", "crates/s3s/src/http/multipart.rs")
+
+
 def run(chk, db, tier):
     roles = Roles(db)
     vs = sigcore.run_common(chk, db, {"v4-post"}, ["s3s::sig_v4::methods::calculate_signature"])
@@ -115,6 +171,10 @@ def run(chk, db, tier):
         chk.guard("R1", rule_r1, db, v)
         chk.guard("R2", rule_r2, db, v)
         chk.guard("R3", rule_r3, db, v, roles)
+    chk.rule("R4", "stream errors while reading the form / file part abort the upload; PutObject pre-emption only after successful aggregation")
+    chk.rule("R5", "form field values are not passed through trimming adapters")
+    chk.guard("R4", rule_r4, db)
+    chk.guard("R5", rule_r5, db)
 
 
 META = {
